@@ -66,10 +66,11 @@ type Exec struct {
 	// constant instead of a quantifier. Only Verify sets it, only for an ensures clause that
 	// is itself the forall (positive position), where proving it for an arbitrary constant
 	// is the same as proving the quantified formula.
-	skolemNext *skolem
-	noFork     bool
-	nextPC     int
-	pathMode   bool // `split returns`: joins are not merged (bounded), see execNode
+	skolemNext  *skolem
+	noFork      bool
+	frameSuffix string
+	nextPC      int
+	pathMode    bool // `split returns`: joins are not merged (bounded), see execNode
 	// nonNil holds the terms `(not (= p nil))` of pointers assumed non-nil on entry
 	nonNil map[string]bool
 }
